@@ -168,18 +168,23 @@ class P(Prop):
         (M, "TV.C16.simplify_nodata", "simplify() never reads track.no_data_value (set by the readers): the observations returned for a track carrying the attribute are those returned without it -- no placeholder fix is left out --, errors included; the result's own attribute is None after Douglas-Peucker (a new Track) and the input's after Visvalingam (the copy)"),
         (M, "TV.C16.simplify_nodata_dp_correct", "the statement of C16 for Douglas-Peucker through simplify() on a reader-made track (ordered field, exact sqrt): whatever no_data_value and wherever the placeholder fixes (first and last included), a result exists, is a sub-sequence of ALL input observations with both ends, and every input observation is within eps of the returned polyline"),
         (M, "TV.C16.net_simplify_each", "Network.simplify(tolerance, mode) is simplify() on every edge geometry in the edges' order: when it succeeds the i-th geometry is what simplify returns for the i-th input geometry"),
-        (M, "TV.C16.vw_threshold", "T10 (threshold semantics, linear order): under T6's hypothesis every interior fix of Visvalingam's result spans with its two neighbours in the result a triangle of area > eps^2 (the '@aire' column stays consistent with the current neighbours; ARGMIN designates a smallest entry)"),
+        (M, "TV.C16.dp_tolerance_any_arithmetic", "T5' (robust tolerance; ANY arithmetic -- rounded, saturating --, only `<` a linear order, as on doubles away from NaN): if a fix whose COMPUTED distance to a chord is < eps is accepted for that chord (W, any predicate: e.g. true distance <= eps + rounding slack) and a vertex is accepted for the segments it ends, then every input fix is accepted for a segment between consecutive vertices of the OUTPUT: the recursion, split and concatenation add no error; T5 is the exact instance (example)"),
+        (M, "TV.C16.dp_any_tiebreak_tolerance_any_arithmetic", "T5' for every run with another choice among equally far fixes (the runs the correspondence check accepts)"),
+        (M, "TV.C16.dp_correct_any_arithmetic", "C16 for Douglas-Peucker under any arithmetic on a total order: given distance_to_segment(A; A, B) never > 0 (checked bit-exactly by the `dist` stream) the call returns, the result is a sub-sequence with both ends, every input fix is accepted (T5')"),
+        (M, "TV.C16.vw_threshold", "T10 (threshold semantics; ANY arithmetic on a linear order since this pass -- the areas are the COMPUTED ones, so it is a statement about the float run away from NaN): under T6's hypothesis every interior fix of Visvalingam's result spans with its two neighbours in the result a triangle of area > eps^2 (the '@aire' column stays consistent with the current neighbours; ARGMIN designates a smallest entry)"),
     ]
     partial = []
     open_statements = [
-        "IEEE rounding: T3 (field form), T4 and T5 are over a linearly ordered field with an exact sqrt; on floats the tolerance is sampled by the transfer "
-        "check with relative slack 1e-9 on eps plus absolute slack 1e-13 x (largest |coordinate|) (T1, T2, T6 and the scalar-independent T3 do apply to the Float model as they assume nothing about the scalar)",
+        "IEEE rounding: T3 (field form), T4 and T5 are over a linearly ordered field with an exact sqrt. T5' (dp_tolerance_any_arithmetic) reduces the tolerance on floats to ONE "
+        "pointwise statement about distance_to_segment -- `computed distance < eps  =>  true distance <= eps(1+1e-9) + 1e-13 M` -- which is not proved (an error analysis of the "
+        "formula in IEEE arithmetic) but sampled: by the `dist` stream (|computed - exact| <= 1e-9 relative + 1e-12 M) and by the transfer check on whole tracks with that slack "
+        "(T1, T2, T6, T12 and the scalar-independent T3 do apply to the Float model as they assume nothing about the scalar; T5', T10 assume only a total order)",
         "Visvalingam when areas are infinite or NaN, i.e. not below ARGMIN's initial minimum +inf (coordinates ~1e154 and more, not ENU tracks): T12 (vw_any) now proves, "
         "for every column and every pass, sub-sequence, last observation kept, >= 2 kept and termination; T6' proves that the first pass removes the FIRST fix when no "
         "area is below the sentinel. Still open: an input-level characterisation of when the first observation survives a MIXED column (some areas finite, some not) -- "
         "compared with the model only (stream `wild`)",
-        "T10 (vw_threshold) is proved over a linear order; on floats the areas are rounded, so an area within an ulp of eps^2 may fall on either side "
-        "(model and code agree bit for bit there: correspondence)",
+        "T10 (vw_threshold) now holds for any arithmetic on a linear order, i.e. for the COMPUTED areas and the computed eps*eps; what it cannot say is how a computed "
+        "area relates to the exact one: an exact area within an ulp of eps^2 may fall on either side (model and code agree bit for bit there: correspondence)",
     ]
     modelled = ("util/geometry.py distance_to_segment (l == 0 branch, normalised scalar product, clamp to the segment's box), "
                 "triangle_area, aire_visval; algo/simplification.py douglas_peucker (n <= 2 base case, first farthest fix by strict >, "
